@@ -58,7 +58,7 @@ func propC08(c *Check) {
 				}
 			}
 		})
-		key := func(v ssa.Value) bool { a, ok := v.(*ssa.Alloc); return ok && a.Comment == "key" }
+		key := func(v ssa.Value) bool { a, ok := v.(*ssa.Alloc); return ok && allocIs(a, "key") }
 		c.Require(len(appends) == 1, "shape", shortName(f)+"|pre-commitment append", "one append to msg.Commitments", "found "+itoa(len(appends)))
 		c.mustPassFrom(f, pre[0].Block().Succs[0], Gate{Name: "pre-commitment key.CheckKey() true", RejectOnTrue: false, Cond: Call("(crypto.Key).CheckKey", PathFrom(key, ""))}, appends, "recording a pre-commitment")
 	}
